@@ -686,7 +686,7 @@ func (h *harness) runReal(c *Case, a, b *built, doc *ast.Document, lean *leanRep
 
 func features(q string) map[string]bool {
 	f := map[string]bool{}
-	f["spread"] = strings.Contains(q, "...F")
+	f["spread"] = strings.Contains(q, "fragment ")
 	f["inline"] = strings.Contains(q, "... on") || strings.Contains(q, "...{") || strings.Contains(q, "... {") || strings.Contains(q, "...@") || strings.Contains(q, "... @")
 	f["variable"] = strings.Contains(q, "$")
 	f["directive"] = strings.Contains(q, "@")
